@@ -218,6 +218,20 @@ Fixpoint parent_memory_wider (l1 l2 : list obj) : bool :=
   | _, _ => false
   end.
 
+(* ... and the test added with the fix "children out of order after a parent level with a wider complete cpuset was
+   removed": some parent's complete cpuset does not start at the same index as its single child's (the child takes
+   the parent's place among siblings ordered by that index) *)
+Definition first_index (s : option bset) : option N := bs_first (oset s).
+Definition opt_N_eqb (a b : option N) : bool :=
+  match a, b with Some x, Some y => x =? y | None, None => true | _, _ => false end.
+Fixpoint parent_first_differs (l1 l2 : list obj) : bool :=
+  match l1, l2 with
+  | p :: t1, c :: t2 =>
+      negb (opt_N_eqb (first_index (o_ccs (odata p))) (first_index (o_ccs (odata c))))
+      || parent_first_differs t1 t2
+  | _, _ => false
+  end.
+
 Definition filt (filters : list N) (ty : N) : N := nthN filters ty HWLOC_TYPE_FILTER_KEEP_NONE.
 Definition prio (ty : N) : Z := nthN obj_type_priority ty 0%Z.
 
@@ -243,7 +257,7 @@ Definition merge_step (filters dm : list N) (ls : list (list obj)) (i : nat) (ro
         let both := rp0 && rc1 in
         let rp := if both then negb (prio ty2 <=? prio ty1)%Z else rp0 in
         let rc := if both then negb rp else rc1 in
-        if levels_same_structure l1 l2 (ty2 =? HWLOC_OBJ_PU) && negb (rp && parent_memory_wider l1 l2)
+        if levels_same_structure l1 l2 (ty2 =? HWLOC_OBJ_PU) && negb (rp && (parent_memory_wider l1 l2 || parent_first_differs l1 l2))
         then merge_tree (map oid l1) rc root
         else root
   | _, _ => root
